@@ -228,6 +228,12 @@ func cmdFirewall(args []string) {
 	distinct := map[string]bool{}
 	ran := 0
 	for vi, v := range vecs {
+		if len(res.Violations) >= 12 {
+			// enough distinct wrong outcomes to report; every further mismatch costs a retry
+			res.Notes = append(res.Notes, fmt.Sprintf("stopped after %d wrong outcomes at vector %d of %d", len(res.Violations), vi, len(vecs)))
+
+			break
+		}
 		// on the wire and at the sockets the service name the spec writes "aXb" is "a\x00b": service names are 8 raw
 		// bytes, an inner zero byte is part of the name (rules see it: /a.*b/ and /.*/ match it, "a" and "ab" do not)
 		v.Pkt.FromService, v.Pkt.ToService = wireSvc(v.Pkt.FromService), wireSvc(v.Pkt.ToService)
@@ -285,104 +291,131 @@ func cmdFirewall(args []string) {
 			if problem == netceptor.ProblemExpiredInTransit {
 				noticeName = "expired"
 			}
-			payload := []byte(fmt.Sprintf("v%d-%s", vi, mode))
-			ev0, f0, r0, n0 := col.Len(), p.Count(), nReads(), nNotes()
-			var sendErr error
-			if strings.HasPrefix(mode, "peer") {
-				_ = p.SendRaw(peer.EncodeData(ttl, v.Pkt.FromNode, v.Pkt.ToNode, v.Pkt.FromService, v.Pkt.ToService, payload))
-				if err := e1.Barrier(col, p, 10*time.Second); err != nil {
-					res.Inconclusive = append(res.Inconclusive, "barrier: "+err.Error())
+			obs, detail := "", ""
+			for attempt := 0; attempt < 2; attempt++ {
+				payload := []byte(fmt.Sprintf("v%d-%s-%d", vi, mode, attempt))
+				ev0, f0, r0, n0 := col.Len(), p.Count(), nReads(), nNotes()
+				var sendErr error
+				if strings.HasPrefix(mode, "peer") {
+					_ = p.SendRaw(peer.EncodeData(ttl, v.Pkt.FromNode, v.Pkt.ToNode, v.Pkt.FromService, v.Pkt.ToService, payload))
+					if err := e1.Barrier(col, p, 10*time.Second); err != nil {
+						res.Inconclusive = append(res.Inconclusive, "barrier: "+err.Error())
+
+						return
+					}
+				} else {
+					sendErr = n.N.SendMessageWithHopsToLive(v.Pkt.FromService, v.Pkt.ToNode, v.Pkt.ToService, payload, ttl)
+				}
+				observe := func() (string, string, bool) {
+					evs := col.Since(ev0)
+					nf, nd, nu := 0, 0, 0
+					for _, e := range evs {
+						switch e["ev"] {
+						case "dp_forward":
+							nf++
+						case "dp_deliver":
+							nd++
+						case "unr_publish":
+							nu++
+						}
+					}
+					// wait for everything the hooks announce to materialise at the observers
+					if !waitCount(p.Count, f0+nf+boolInt(mode == "peer")*0) || !waitCount(nReads, r0+nd) {
+						return "", "", true
+					}
+					frames := p.Frames()[f0:]
+					var dataFrames []peer.Frame
+					for _, f := range frames {
+						if f.Type == netceptor.MsgTypeData {
+							dataFrames = append(dataFrames, f)
+						}
+					}
+					mu.Lock()
+					newReads := append([]localRead(nil), reads[r0:]...)
+					mu.Unlock()
+					obs := "silent"
+					detail := ""
+					ttlIn := ttl
+					switch {
+					case len(dataFrames) == 0 && len(newReads) == 0 && nu == 0:
+						obs = "silent"
+					case len(dataFrames) == 1 && len(newReads) == 0 && nu == 0 && dataFrames[0].Data != nil:
+						d := dataFrames[0].Data
+						if d.FromService == "unreach" && d.ToService == "unreach" {
+							var um netceptor.UnreachableMessage
+							_ = json.Unmarshal(d.Payload, &um)
+							if d.FromHash == peer.Hash(self) && d.ToHash == peer.Hash(v.Pkt.FromNode) && um.Problem == problem &&
+								um.FromNode == v.Pkt.FromNode && um.ToNode == v.Pkt.ToNode && um.FromService == v.Pkt.FromService && um.ToService == v.Pkt.ToService {
+								obs = noticeName
+							} else {
+								obs, detail = "bad-notice", printable(fmt.Sprintf("%+v %+v", d, um))
+							}
+						} else if d.FromHash == peer.Hash(v.Pkt.FromNode) && d.ToHash == peer.Hash(v.Pkt.ToNode) && d.FromService == v.Pkt.FromService &&
+							d.ToService == v.Pkt.ToService && string(d.Payload) == string(payload) && ttlIn > 0 && d.TTL == ttlIn-1 && v.Pkt.ToNode != self {
+							obs = "pass"
+						} else {
+							obs, detail = "bad-forward", printable(fmt.Sprintf("%+v", d))
+						}
+					case len(dataFrames) == 0 && len(newReads) == 1 && nu == 0:
+						rd := newReads[0]
+						if v.Pkt.ToNode == self && rd.svc == v.Pkt.ToService && rd.payload == string(payload) && rd.from == v.Pkt.FromNode+":"+v.Pkt.FromService {
+							obs = "pass"
+						} else {
+							obs, detail = "bad-delivery", printable(fmt.Sprintf("%+v", rd))
+						}
+					case len(dataFrames) == 0 && len(newReads) == 0 && nu == 1:
+						// a notice dispatched locally (the packet claims this node as its source)
+						if !waitCount(nNotes, n0+1) {
+							obs, detail = "bad-notice", "published locally but no socket received it"
+
+							break
+						}
+						mu.Lock()
+						nt := notes[n0]
+						extraNotes := len(notes) - n0
+						mu.Unlock()
+						if extraNotes == 1 && nt.svc == v.Pkt.FromService && v.Pkt.FromNode == self && nt.n.Problem == problem &&
+							nt.n.ToNode == v.Pkt.ToNode && nt.n.ToService == v.Pkt.ToService && nt.n.FromService == v.Pkt.FromService {
+							obs = noticeName
+						} else {
+							obs, detail = "bad-notice", printable(fmt.Sprintf("%+v (%d notifications)", nt, extraNotes))
+						}
+					default:
+						obs, detail = "multiple", fmt.Sprintf("frames=%d reads=%d publishes=%d", len(dataFrames), len(newReads), nu)
+					}
+
+					return obs, detail, false
+				}
+				var stuck bool
+				obs, detail, stuck = observe()
+				if !stuck && obs != expect {
+					// What was observed is not what the specification says. Before that counts, look again a little later
+					// (everything since the packet was sent is considered again): a frame or a local notice that is still on
+					// its way must neither be missed here nor be taken for an effect of the next packet.
+					time.Sleep(300 * time.Millisecond)
+					obs, detail, stuck = observe()
+					res.count("reobserved")
+				}
+				if stuck {
+					res.Inconclusive = append(res.Inconclusive, "announced frame or delivery did not arrive")
 
 					return
 				}
-			} else {
-				sendErr = n.N.SendMessageWithHopsToLive(v.Pkt.FromService, v.Pkt.ToNode, v.Pkt.ToService, payload, ttl)
-			}
-			evs := col.Since(ev0)
-			nf, nd, nu := 0, 0, 0
-			for _, e := range evs {
-				switch e["ev"] {
-				case "dp_forward":
-					nf++
-				case "dp_deliver":
-					nd++
-				case "unr_publish":
-					nu++
+				if strings.HasPrefix(mode, "origin") && sendErr != nil {
+					obs, detail = "send-error", sendErr.Error()
 				}
-			}
-			// wait for everything the hooks announce to materialise at the observers
-			if !waitCount(p.Count, f0+nf+boolInt(mode == "peer")*0) || !waitCount(nReads, r0+nd) {
-				res.Inconclusive = append(res.Inconclusive, "announced frame or delivery did not arrive")
-
-				return
-			}
-			frames := p.Frames()[f0:]
-			var dataFrames []peer.Frame
-			for _, f := range frames {
-				if f.Type == netceptor.MsgTypeData {
-					dataFrames = append(dataFrames, f)
-				}
-			}
-			mu.Lock()
-			newReads := append([]localRead(nil), reads[r0:]...)
-			mu.Unlock()
-			obs := "silent"
-			detail := ""
-			ttlIn := ttl
-			switch {
-			case len(dataFrames) == 0 && len(newReads) == 0 && nu == 0:
-				obs = "silent"
-			case len(dataFrames) == 1 && len(newReads) == 0 && nu == 0 && dataFrames[0].Data != nil:
-				d := dataFrames[0].Data
-				if d.FromService == "unreach" && d.ToService == "unreach" {
-					var um netceptor.UnreachableMessage
-					_ = json.Unmarshal(d.Payload, &um)
-					if d.FromHash == peer.Hash(self) && d.ToHash == peer.Hash(v.Pkt.FromNode) && um.Problem == problem &&
-						um.FromNode == v.Pkt.FromNode && um.ToNode == v.Pkt.ToNode && um.FromService == v.Pkt.FromService && um.ToService == v.Pkt.ToService {
-						obs = noticeName
-					} else {
-						obs, detail = "bad-notice", printable(fmt.Sprintf("%+v %+v", d, um))
-					}
-				} else if d.FromHash == peer.Hash(v.Pkt.FromNode) && d.ToHash == peer.Hash(v.Pkt.ToNode) && d.FromService == v.Pkt.FromService &&
-					d.ToService == v.Pkt.ToService && string(d.Payload) == string(payload) && ttlIn > 0 && d.TTL == ttlIn-1 && v.Pkt.ToNode != self {
-					obs = "pass"
-				} else {
-					obs, detail = "bad-forward", printable(fmt.Sprintf("%+v", d))
-				}
-			case len(dataFrames) == 0 && len(newReads) == 1 && nu == 0:
-				rd := newReads[0]
-				if v.Pkt.ToNode == self && rd.svc == v.Pkt.ToService && rd.payload == string(payload) && rd.from == v.Pkt.FromNode+":"+v.Pkt.FromService {
-					obs = "pass"
-				} else {
-					obs, detail = "bad-delivery", printable(fmt.Sprintf("%+v", rd))
-				}
-			case len(dataFrames) == 0 && len(newReads) == 0 && nu == 1:
-				// a notice dispatched locally (the packet claims this node as its source)
-				if !waitCount(nNotes, n0+1) {
-					obs, detail = "bad-notice", "published locally but no socket received it"
-
+				key := fmt.Sprintf("%s|%s|%+v|%s", mode, rulesJSON, v.Pkt, expect)
+				distinct[key] = true
+				res.count("outcome_" + expect)
+				res.count("mode_" + mode)
+				if obs == expect || attempt == 1 {
 					break
 				}
-				mu.Lock()
-				nt := notes[n0]
-				extraNotes := len(notes) - n0
-				mu.Unlock()
-				if extraNotes == 1 && nt.svc == v.Pkt.FromService && v.Pkt.FromNode == self && nt.n.Problem == problem &&
-					nt.n.ToNode == v.Pkt.ToNode && nt.n.ToService == v.Pkt.ToService && nt.n.FromService == v.Pkt.FromService {
-					obs = noticeName
-				} else {
-					obs, detail = "bad-notice", printable(fmt.Sprintf("%+v (%d notifications)", nt, extraNotes))
-				}
-			default:
-				obs, detail = "multiple", fmt.Sprintf("frames=%d reads=%d publishes=%d", len(dataFrames), len(newReads), nu)
+				// the rules and the packet decide the outcome, nothing else does: a genuine wrong outcome shows again when the
+				// same packet is sent again; anything that does not is not counted
+				res.count("retried_after_mismatch")
+				time.Sleep(300 * time.Millisecond)
 			}
-			if strings.HasPrefix(mode, "origin") && sendErr != nil {
-				obs, detail = "send-error", sendErr.Error()
-			}
-			key := fmt.Sprintf("%s|%s|%+v|%s", mode, rulesJSON, v.Pkt, expect)
-			distinct[key] = true
-			res.count("outcome_" + expect)
-			res.count("mode_" + mode)
 			if obs != expect {
 				pos := "transit"
 				if v.Pkt.ToNode == self {
